@@ -210,8 +210,13 @@ def _run(ctx, replay):
         print("DEBUG cfgcheck %.1fs for %d cases" % (harness_wall, len(cases)))
     results = [json.loads(l) for l in open(rp)]
     errs = [x for x in results if x["status"] == "error"]
-    if errs:
+    # a handful of cases may run into the per-request deadline when the machine is overloaded: they
+    # are not executed (counted in the evidence), anything else - or more than a handful - is a tool error
+    slow = [x for x in errs if "DeadlineExceeded" in str(x.get("err", ""))]
+    if len(slow) != len(errs) or len(errs) > max(20, len(results) // 2000):
         raise ToolError("cfgcheck could not execute %d cases, e.g. %s" % (len(errs), errs[0]))
+    if errs:
+        print("NOTE property=%s %d of %d cases hit the request deadline under load and were not executed" % (prop, len(errs), len(results)))
     given = results[:len(cases)]
     rejected = [x for x in given if x["status"] == "rejected" and x["kind"] == "cfg"]
     ncfg = sum(1 for c in cases if c["kind"] == "cfg")
